@@ -3,7 +3,7 @@ HOOK_COMMITS = ['621a573', '7ae3ccb']
 ENGINES = [
     dict(name='verus-extract', path='/verif/vlib', serves_properties=['C04', 'C05', 'C06', 'C08', 'C12', 'C14', 'C15', 'C17', 'C20'],
          kind_free_text='Verus 0.2026.09.13 on functions extracted mechanically from /repo on every run, contracts injected from /verif/units/<unit>/unit.rs'),
-    dict(name='kani-contracts', path='/verif/kani', serves_properties=['C01', 'C02', 'C03', 'C06', 'C10', 'C11', 'C15', 'C17', 'C18', 'C19', 'C20'],
+    dict(name='kani-contracts', path='/verif/kani', serves_properties=['C01', 'C02', 'C03', 'C06', 'C10', 'C11', 'C15', 'C16', 'C17', 'C18', 'C19', 'C20'],
          kind_free_text='Kani 0.68 function contracts (proof_for_contract) and loop-free full-domain harnesses on the real crates of /repo (path dependencies), CBMC 6.11'),
 ]
 NOTES = ('Contract-based deductive verification. exit 0 = all obligations discharged; exit 1 = VIOLATION; '
@@ -13,6 +13,12 @@ NOT_APPLICABLE = {
     'C13': 'bus state is BTreeMap+VecDeque behind Rc<RefCell> driven by std iterator closures: no Verus model, Kani measured >10 min for 2 outputs x 2 ops (DESIGN.md §7)',
 }
 CHECKS = {
+    'C16': dict(
+        engine='kani-contracts', category='model_checking',
+        technique='bounded Kani harnesses calling Node::process of the stock nodes directly (guarded hook Input::verif_new), bit-precise f32, enumerated shapes',
+        text='BOUNDED: for the enumerated shapes (see evidence) Pass copies the first input\'s buffers onto the corresponding outputs and leaves surplus outputs untouched (also with no input); Sum writes to each output channel the sample-wise sum of that channel over the inputs that have it and silence otherwise; SumBuffers writes the sum of all buffers; Delay delays by the ring length (two calls, state carried, in the thorough tier); a `dyn Signal` node writes successive frames de-interleaved into min(CHANNELS, outputs) buffers; &mut, Box, BoxedNode, BoxedNodeSend, fn pointer, dyn FnMut and dyn Fn wrappers behave as the wrapped node.',
+        note='Bounded shapes only; nested GraphNode not covered (petgraph). These nodes run the crates.io 0.11.0 dasp_slice/ring_buffer (T7). Model checking, not proof.',
+    ),
     'C18': dict(
         engine='kani-contracts', category='model_checking',
         technique='bounded Kani harnesses on the real Sinc interpolator (state observed through guarded read-only hooks)',
